@@ -180,7 +180,7 @@ theorem block_cmd_scoped (c : Cmd) (hnl : ∀ p n e, c ≠ .letValue p n e) (hnc
     · exact Good.leaf (by simp) (Ext.of_heap_eq rfl rfl)
     · rename_i callee _
       split
-      · exact Good.leaf (by simp) (Ext.of_heap_eq rfl rfl)
+      · exact Good.leaf (by simp) ((noteImpossible_ext _ _ _ _).trans (Ext.atNode _ _ _) (fun _ _ h => h))
       · rename_i cd st1 hcd
         obtain ⟨e1, owncd, hfresh⟩ := callData_spec hcd
         have hp := execParams_good g esc call hcall params cd ctx st1 owncd
